@@ -1055,6 +1055,11 @@ class Interp:
             return and_const(x, y.as_long())
         if is_int_const(x) and x.as_long() >= 0:
             return and_const(y, x.as_long())
+        # x & ~k == x - (x & k) for a non-negative constant k (a negative mask is ~k)
+        if is_int_const(y) and y.as_long() < 0:
+            return x - and_const(x, -y.as_long() - 1)
+        if is_int_const(x) and x.as_long() < 0:
+            return y - and_const(y, -x.as_long() - 1)
         # structural patterns on the operand terms: pow2(k) and pow2(k)-1
         for u, w in ((x, y), (y, x)):
             k = self.match_pow2(w)
